@@ -24,7 +24,7 @@ RULE = (
     "every round-trip model is compared in state and behaviour (C01 monitor) and for independence. "
     "non-trivial = program with a shared input, an unnamed node and >= 1 round trip; distinct by program hash"
 )
-REQUIRED = ["unchanged_after_failed_copy", "complete_and_unique", "outputs_inverse_of_inputs", "topological_order", "rejects_duplicates",
+REQUIRED = ["builder_usable_after_rejected_build", "unchanged_after_failed_copy", "complete_and_unique", "outputs_inverse_of_inputs", "topological_order", "rejects_duplicates",
             "rejects_cycles", "mutation_rejected", "unchanged_after_rejection", "foreign_build_rejected",
             "coherent_after_rejection", "roundtrip_state_equal", "roundtrip_behaviour_equal", "roundtrip_independent"]
 ANCHORS = ["model/model.py:Model.__init__", "model/model.py:Model.pop_nodes_and_vars",
@@ -526,6 +526,44 @@ def negative_builds(res, rng):
         res.violation("duplicate-accepted", "graph with two variables named 'same' was accepted", {})
     except Exception:  # noqa: BLE001
         pass
+    # a rejected build must leave the builder usable: correct the graph and build again from the SAME builder
+    res.mon("builder_usable_after_rejected_build")
+    p1 = lsl.Value(1.0, _name="dup2")
+    p2 = lsl.Value(2.0, _name="dup2")
+    cc = lsl.Calc(lambda x, y: x + y, p1, p2, _name="cc")
+    gbx = lsl.GraphBuilder().add(cc)
+    try:
+        gbx.build_model()
+        res.violation("duplicate-accepted", "graph with two nodes named 'dup2' was accepted", {})
+    except Exception:  # noqa: BLE001
+        pass
+    p2.name = "dup2_fixed"
+    try:
+        mfix = gbx.build_model()
+        if float(mfix.nodes["cc"].value) != 3.0 or len(mfix.nodes) != 6:
+            res.violation("rebuild-after-rejection", f"model built after correcting a rejected graph is wrong: nodes {sorted(mfix.nodes)}", {})
+    except Exception as exc:  # noqa: BLE001
+        res.violation("rebuild-after-rejection", f"after a rejected build_model() the corrected graph cannot be built from the same "
+                      f"GraphBuilder: {type(exc).__name__}: {str(exc)[:200]}", {})
+    # the same with a cycle that is then removed
+    q0 = lsl.Value(1.0, _name="q0")
+    qa = lsl.Calc(lambda x: x + 1.0, q0, _name="qa", update_on_init=False)
+    qb = lsl.Calc(lambda x: x * 2.0, qa, _name="qb", update_on_init=False)
+    qa.set_inputs(q0, qb)
+    gby = lsl.GraphBuilder().add(qb)
+    try:
+        gby.build_model()
+        res.violation("cycle-accepted", "2-cycle accepted", {})
+    except Exception:  # noqa: BLE001
+        pass
+    qa.set_inputs(q0)
+    try:
+        mfix = gby.build_model()
+        if float(mfix.nodes["qb"].value) != 4.0:
+            res.violation("rebuild-after-rejection", "model built after removing a cycle is wrong", {})
+    except Exception as exc:  # noqa: BLE001
+        res.violation("rebuild-after-rejection", f"after a rejected (cyclic) build_model() the corrected graph cannot be built from the "
+                      f"same GraphBuilder: {type(exc).__name__}: {str(exc)[:200]}", {})
     # name clash between an explicit name and the auto-naming scheme must still give unique names
     n0 = lsl.Value(1.0, _name="n0")
     un = lsl.Value(2.0)
